@@ -257,6 +257,8 @@ public:
     size_t nrB = B.getNumberOfRows();
     size_t ncB = B.getNumberOfColumns();
     if (ncA != nrB) throw DimensionException("MatrixTools::mult(). nrows B != ncols A.", nrB, ncA);
+    if (iA.getNumberOfRows() != nrA || iA.getNumberOfColumns() != ncA) throw DimensionException("MatrixTools::mult(). Real and imaginary parts of A have different sizes.", iA.getNumberOfRows(), nrA);
+    if (iB.getNumberOfRows() != nrB || iB.getNumberOfColumns() != ncB) throw DimensionException("MatrixTools::mult(). Real and imaginary parts of B have different sizes.", iB.getNumberOfRows(), nrB);
     O.resize(nrA, ncB);
     iO.resize(nrA, ncB);
     for (size_t i = 0; i < nrA; i++)
@@ -336,6 +338,9 @@ public:
     size_t ncB = B.getNumberOfColumns();
     if (ncA != nrB) throw DimensionException("MatrixTools::mult(). nrows B != ncols A.", nrB, ncA);
     if (ncA != D.size()) throw DimensionException("MatrixTools::mult(). Vector size is not equal to matrix size.", D.size(), ncA);
+    if (iD.size() != D.size()) throw DimensionException("MatrixTools::mult(). Real and imaginary parts of D have different sizes.", iD.size(), D.size());
+    if (iA.getNumberOfRows() != nrA || iA.getNumberOfColumns() != ncA) throw DimensionException("MatrixTools::mult(). Real and imaginary parts of A have different sizes.", iA.getNumberOfRows(), nrA);
+    if (iB.getNumberOfRows() != nrB || iB.getNumberOfColumns() != ncB) throw DimensionException("MatrixTools::mult(). Real and imaginary parts of B have different sizes.", iB.getNumberOfRows(), nrB);
     O.resize(nrA, ncB);
     Scalar ab, iaib, iab, aib;
 
@@ -1053,6 +1058,8 @@ public:
     size_t ncB = B.getNumberOfColumns();
     if (nrA != nrB) throw DimensionException("MatrixTools::hadamardMult(). nrows A != nrows B.", nrA, nrB);
     if (ncA != ncB) throw DimensionException("MatrixTools::hadamardMult(). ncols A != ncols B.", ncA, ncB);
+    if (iA.getNumberOfRows() != nrA || iA.getNumberOfColumns() != ncA) throw DimensionException("MatrixTools::hadamardMult(). Real and imaginary parts of A have different sizes.", iA.getNumberOfRows(), nrA);
+    if (iB.getNumberOfRows() != nrB || iB.getNumberOfColumns() != ncB) throw DimensionException("MatrixTools::hadamardMult(). Real and imaginary parts of B have different sizes.", iB.getNumberOfRows(), nrB);
     O.resize(nrA, ncA);
     iO.resize(nrA, ncA);
     for (size_t i = 0; i < nrA; i++)
